@@ -497,11 +497,8 @@ func (i c20Inst) render() string {
 	return strings.Join(t, " ")
 }
 
-func c20CanonInst(pc, mask int64, dst, src []string, hasOp bool, width, compress, addr, stride int64, deltas []int64, imm int64) string {
-	op := "0"
-	if hasOp {
-		op = "1"
-	}
+// op = the opcode text of the parsed instruction ("-" when Instruction.OpCode is nil)
+func c20CanonInst(pc, mask int64, dst, src []string, op string, width, compress, addr, stride int64, deltas []int64, imm int64) string {
 	ds := make([]string, len(deltas))
 	for i, d := range deltas {
 		ds[i] = fmt.Sprint(d)
@@ -522,11 +519,15 @@ func c20CanonReal(in *tracereader.Instruction) string {
 	for _, d := range in.MemAddressSuffix2 {
 		ds = append(ds, int64(d))
 	}
-	return fmt.Sprintf("%d/%d/", in.DestNum, in.SrcNum) + c20CanonInst(int64(in.PC), in.Mask, dst, src, in.OpCode != nil, int64(in.MemWidth), int64(in.AddressCompress),
+	op := "-"
+	if in.OpCode != nil {
+		op = in.OpCode.String()
+	}
+	return fmt.Sprintf("%d/%d/", in.DestNum, in.SrcNum) + c20CanonInst(int64(in.PC), in.Mask, dst, src, op, int64(in.MemWidth), int64(in.AddressCompress),
 		in.MemAddress, int64(in.MemAddressSuffix1), ds, in.Immediate)
 }
 
-// what the serialised structure looks like after a faithful parse (opcode excepted: see finding)
+// what the serialised structure looks like after a faithful parse (opcode text included)
 func (i c20Inst) canonSpec() string {
 	var stride int64
 	var deltas []int64
@@ -540,7 +541,7 @@ func (i c20Inst) canonSpec() string {
 			deltas = i.deltas
 		}
 	}
-	return fmt.Sprintf("%d/%d/", len(i.dst), len(i.src)) + c20CanonInst(i.pc, i.mask, i.dst, i.src, false, i.width, compress, addr, stride, deltas, i.imm)
+	return fmt.Sprintf("%d/%d/", len(i.dst), len(i.src)) + c20CanonInst(i.pc, i.mask, i.dst, i.src, i.op, i.width, compress, addr, stride, deltas, i.imm)
 }
 
 var c20Ops = []string{"MOV", "S2R", "IMAD", "ISETP.GE.AND", "EXIT", "LDG.E", "STG.E", "FADD", "IMAD.MOV.U32", "BRA"}
@@ -735,8 +736,10 @@ func c20ParseCase(r *Run, rng *Rng) {
 	cs := "c20 parse " + strings.Join(body, "|")
 	if want := c20CanonSpec(tbs); got != want {
 		sig := "C20.parse_render.body"
-		if c20AddrOnly(got, want) {
+		if c20FieldOnly(got, want, 7) {
 			sig = "C20.parse_render.mem_address"
+		} else if c20FieldOnly(got, want, 4) {
+			sig = "C20.parse_render.opcode"
 		}
 		r.Failf(sig, cs, "parse(render t) != t: want %s got %s", want, got)
 	}
@@ -746,31 +749,15 @@ func c20ParseCase(r *Run, rng *Rng) {
 		fh.LocalMemBaseAddr != h.locBase || fh.NvbitVersion != h.nvbit || fh.AccelsimTracerVersion != h.accel || fh.EnableLineinfo != h.lineinfo) {
 		r.Failf("C20.parse_render.header", cs, "header round trip: rendered %+v parsed %+v", h, fh)
 	}
-	// the opcode token is part of the serialised instruction; the parsed structure has a field for it
+	// the opcode token is part of the serialised instruction: compared through canonSpec (field 4)
 	if ninst > 0 {
 		r.Checked("parse_render.opcode")
-		if strings.Contains(got, " I") && !strings.Contains(got, ":1:") {
-			// every instruction carries hasOp=0
-			miss := false
-			for i := int64(0); i < tr.ThreadblocksCount() && !miss; i++ {
-				for j := int64(0); j < tr.Threadblock(i).WarpsCount() && !miss; j++ {
-					for _, in := range tr.Threadblock(i).Warp(j).Instructions {
-						if in.OpCode == nil {
-							miss = true
-						}
-					}
-				}
-			}
-			if miss && !c20OpcodeReported {
-				c20OpcodeReported = true
-				r.Failf("C20.parse_render.opcode", "c20 parse <any instruction line>", "Instruction.OpCode is nil after parsing a line whose opcode token is present (opcode parsing is commented out in extractInst)")
-			}
-		}
 	}
 }
 
-// c20AddrOnly reports whether got and want differ only in the memory-address field of instructions.
-func c20AddrOnly(got, want string) bool {
+// c20FieldOnly reports whether got and want differ only in field f of instructions (7 = memory address,
+// 4 = opcode text).
+func c20FieldOnly(got, want string, f int) bool {
 	g, w := strings.Fields(got), strings.Fields(want)
 	if len(g) != len(w) {
 		return false
@@ -784,7 +771,7 @@ func c20AddrOnly(got, want string) bool {
 			return false
 		}
 		for k := range gf {
-			if gf[k] != wf[k] && k != 7 {
+			if gf[k] != wf[k] && k != f {
 				return false
 			}
 		}
@@ -834,8 +821,10 @@ func c20InstCase(r *Run, rng *Rng) {
 		r.Checked("parse_render.inst")
 		if want := "I" + in.canonSpec(); out != want {
 			sig := "C20.parse_render.body"
-			if c20AddrOnly(out, want) {
+			if c20FieldOnly(out, want, 7) {
 				sig = "C20.parse_render.mem_address"
+			} else if c20FieldOnly(out, want, 4) {
+				sig = "C20.parse_render.opcode"
 			}
 			r.Failf(sig, "c20 inst "+line, "want %s got %s", want, out)
 		}
@@ -844,7 +833,6 @@ func c20InstCase(r *Run, rng *Rng) {
 
 // ------------------------------------------------------------------ driver
 
-var c20OpcodeReported bool
 
 func c20Repo() string {
 	if d := os.Getenv("VERIF_REPO"); d != "" {
